@@ -509,7 +509,7 @@ pub fn run(run: &mut Run) {
         "integer model written from the names' documentation (Jones = saturate the total first; Deg1Clip = clip channel to +-116 only for degree one)".into(),
         "for the layered clause the oracle is the same type's flooding rule (the statement is a consistency statement)".into(),
     ];
-    let per_type = if cfg!(miri) { 1 } else { run.tier.n(300, 12_000) };
+    let per_type = if cfg!(miri) { 1 } else { run.tier.n(4000, 150_000) };
     let calls = if cfg!(miri) { 6 } else { 48 };
     run.sub("variable-rule", per_type * 24, move |l, idx, rng| {
         let name = ARITH_NAMES[(idx % 24) as usize];
